@@ -17,6 +17,10 @@ BigDec(st, i) == [neg |-> R(st, i) % 2 = 1,
 Extremes == << D(FALSE, 1, 1000000000), D(TRUE, 7, -1000000000), D(FALSE, 0, 1000000000), D(TRUE, 0, -999999999),
                D(FALSE, 123, 2147483), D(TRUE, 123, -2147483) >>
 
+BigExp == << D(FALSE, 1, 2000000000), D(TRUE, 7, 1000000000), D(FALSE, 11, 2147483647), D(FALSE, 13, 147483647), D(FALSE, 3, 147483648),
+            D(TRUE, 1, 0 - 2000000000), D(FALSE, 7, 0 - 1000000000), D(FALSE, 11, 0 - 2147483647), D(TRUE, 5, 0 - 147483647), D(FALSE, 2, 5) >>
+ZeroPairs == << <<D(FALSE, 0, 3), D(FALSE, 15, 0 - 1)>>, <<D(FALSE, 0, 0), D(TRUE, 7, 0 - 2)>>, <<D(TRUE, 0, 2), D(FALSE, 123, 0)>>,
+               <<D(FALSE, 0, 5), D(FALSE, 1, 5)>>, <<D(FALSE, 0, 1), D(FALSE, 0, 0 - 1)>> >>
 Unary(a) == << [op |-> "Neg", a |-> a], [op |-> "Abs", a |-> a], [op |-> "Sign", a |-> a], [op |-> "String", a |-> a],
                [op |-> "ShiftL", a |-> a, n |-> 0], [op |-> "ShiftL", a |-> a, n |-> 5], [op |-> "ShiftR", a |-> a, n |-> 1],
                [op |-> "ShiftR", a |-> a, n |-> 9], [op |-> "Truncate", a |-> a, n |-> 1], [op |-> "Truncate", a |-> a, n |-> 2],
@@ -53,6 +57,13 @@ Cases ==
   IN FlattenSeq([i \in 1..n |-> Unary(g[i])])
      \o Rescaled
      \o FlattenSeq([i \in 1..Len(Extremes) |-> SubSeq(Unary(Extremes[i]), 1, 4)])
+     \* products at the edge of the exponent range: representable ones must be exact, the others refused
+     \o FlattenSeq([i \in 1..Len(BigExp) |-> [j \in 1..Len(BigExp) |-> [op |-> "Mul", a |-> BigExp[i], b |-> BigExp[j]]]])
+     \* a zero receiver or argument at a higher exponent than the other operand, twice in a row (an operand that is
+     \* changed by the first operation shows in the second)
+     \o FlattenSeq([i \in 1..Len(ZeroPairs) |-> <<[op |-> "Add", a |-> ZeroPairs[i][1], b |-> ZeroPairs[i][2]],
+                                                    [op |-> "Add", a |-> ZeroPairs[i][2], b |-> ZeroPairs[i][1]],
+                                                    [op |-> "Sub", a |-> ZeroPairs[i][1], b |-> ZeroPairs[i][2]]>>])
      \o FlattenSeq([k \in 1..Len(ps) |-> Binary(g[(ps[k] \div n) + 1], g[(ps[k] % n) + 1])])
      \o FlattenSeq([i \in 1..Len(Streams) |-> Binary(BigDec(Streams[i].s, 1), BigDec(Streams[i].s, 40))
                                               \o Unary(BigDec(Streams[i].s, 80))])
